@@ -1214,7 +1214,7 @@ func main() {
 	// ---- grammar-directed requests
 	n := 3000
 	if tier == "thorough" {
-		n = 200000
+		n = 60000
 	}
 	for i := 0; i < n; i++ {
 		e.reqCase("grammar", genReq(r))
